@@ -236,6 +236,25 @@ class Rewriter(ast.NodeTransformer):
             )
         return node
 
+    # ---- set displays / comprehensions (elements may be symbolic: no hashing)
+    def visit_SetComp(self, node):
+        self.generic_visit(node)
+        lc = ast.ListComp(elt=node.elt, generators=node.generators)
+        return ast.copy_location(ast.Call(
+            func=ast.Attribute(value=ast.Name(id="__sym__", ctx=ast.Load()), attr="mkset", ctx=ast.Load()), args=[lc], keywords=[]), node)
+
+    def visit_Set(self, node):
+        self.generic_visit(node)
+        lst = ast.List(elts=node.elts, ctx=ast.Load())
+        return ast.copy_location(ast.Call(
+            func=ast.Attribute(value=ast.Name(id="__sym__", ctx=ast.Load()), attr="mkset", ctx=ast.Load()), args=[lst], keywords=[]), node)
+
+    def visit_DictComp(self, node):
+        self.generic_visit(node)
+        lc = ast.ListComp(elt=ast.Tuple(elts=[node.key, node.value], ctx=ast.Load()), generators=node.generators)
+        return ast.copy_location(ast.Call(
+            func=ast.Attribute(value=ast.Name(id="__sym__", ctx=ast.Load()), attr="mkdict", ctx=ast.Load()), args=[lc], keywords=[]), node)
+
     # ---- in / not in
     def visit_Compare(self, node):
         self.generic_visit(node)
